@@ -79,6 +79,22 @@ Proof. vm_compute. reflexivity. Qed.
 Lemma w_calc_inside_trace : leaves_trace_flush w_ord w_doc w_calc 3 = true.
 Proof. vm_compute. reflexivity. Qed.
 
+(* (vii) a recomputed cell whose row is removed and added again under the same id in the bundle: the summary sees
+   the row as preserved (before True, after True) and appends the restoring update at the BACK (it runs first);
+   the undo of the remove then re-adds the row with the recomputed value it captured.  Event boundary, flush done. *)
+Definition w_readd : list event :=
+  [EDoc (UpdateRecord T 2 [(A, 10)]); ECalc T B [(2, 20)]; EDoc (RemoveRecord T 2); EDoc (AddRecord T 2 [(A, 7)])].
+Lemma w_readd_trace : leaves_trace_flush w_ord w_doc w_readd 14 = true.
+Proof. vm_compute. reflexivity. Qed.
+Lemma w_readd_boundary :
+  match run_until_crash w_ord (init_state w_doc []) w_readd 14 with Crashed _ None [] => True | _ => False end.
+Proof. vm_compute. exact I. Qed.
+(* the same bundle without the re-add, or with the recalculation after the re-add, is reverted *)
+Lemma w_readd_variants_no_trace :
+  leaves_trace_flush w_ord w_doc [EDoc (UpdateRecord T 2 [(A, 10)]); ECalc T B [(2, 20)]; EDoc (RemoveRecord T 2)] 10 = false /\
+  leaves_trace_flush w_ord w_doc [EDoc (RemoveRecord T 2); EDoc (AddRecord T 2 [(A, 7)]); ECalc T B [(2, 14)]] 12 = false.
+Proof. vm_compute. split; reflexivity. Qed.
+
 (* (iii) schema action crashing after rebuild_usercode, before its undo: the schema restore re-creates the
    destroyed column empty *)
 Definition w_remove_column : list event := [EDoc (RemoveColumn T A)].
